@@ -198,14 +198,15 @@ func (c *CC) CanonicalCorrelations(x, y mat.Matrix, weights []float64) error {
 }
 
 // CorrsTo returns the canonical correlations, using dst if it is not nil.
-// If dst is not nil and len(dst) does not match the number of columns in
-// the y input matrix, Corrs will panic.
+// The number of canonical correlations is the smaller of the numbers of
+// columns in the x and y input matrices, min(xd, yd). If dst is not nil and
+// len(dst) does not match this number, Corrs will panic.
 func (c *CC) CorrsTo(dst []float64) []float64 {
 	if !c.ok {
 		panic("stat: canonical correlations missing or invalid")
 	}
 
-	if dst != nil && len(dst) != c.yd {
+	if dst != nil && len(dst) != min(c.xd, c.yd) {
 		panic("stat: length of destination does not match input dimension")
 	}
 	return c.c.Values(dst)
@@ -215,8 +216,8 @@ func (c *CC) CorrsTo(dst []float64) []float64 {
 // spheredSpace is true. If spheredSpace is false it returns these eigenvectors
 // back-transformed to the original data space.
 //
-// If dst is empty, LeftTo will resize dst to be xd×yd. When dst is
-// non-empty, LeftTo will panic if dst is not xd×yd. LeftTo will also
+// If dst is empty, LeftTo will resize dst to be xd×min(xd, yd). When dst is
+// non-empty, LeftTo will panic if dst is not xd×min(xd, yd). LeftTo will also
 // panic if the receiver does not contain a successful CC.
 func (c *CC) LeftTo(dst *mat.Dense, spheredSpace bool) {
 	if !c.ok || c.n < 2 {
@@ -224,9 +225,9 @@ func (c *CC) LeftTo(dst *mat.Dense, spheredSpace bool) {
 	}
 
 	if dst.IsEmpty() {
-		dst.ReuseAs(c.xd, c.yd)
+		dst.ReuseAs(c.xd, min(c.xd, c.yd))
 	} else {
-		if d, n := dst.Dims(); d != c.xd || n != c.yd {
+		if d, n := dst.Dims(); d != c.xd || n != min(c.xd, c.yd) {
 			panic(mat.ErrShape)
 		}
 	}
@@ -249,8 +250,8 @@ func (c *CC) LeftTo(dst *mat.Dense, spheredSpace bool) {
 // spheredSpace is true. If spheredSpace is false it returns these eigenvectors
 // back-transformed to the original data space.
 //
-// If dst is empty, RightTo will resize dst to be yd×yd. When dst is
-// non-empty, RightTo will panic if dst is not yd×yd. RightTo will also
+// If dst is empty, RightTo will resize dst to be yd×min(xd, yd). When dst is
+// non-empty, RightTo will panic if dst is not yd×min(xd, yd). RightTo will also
 // panic if the receiver does not contain a successful CC.
 func (c *CC) RightTo(dst *mat.Dense, spheredSpace bool) {
 	if !c.ok || c.n < 2 {
@@ -258,9 +259,9 @@ func (c *CC) RightTo(dst *mat.Dense, spheredSpace bool) {
 	}
 
 	if dst.IsEmpty() {
-		dst.ReuseAs(c.yd, c.yd)
+		dst.ReuseAs(c.yd, min(c.xd, c.yd))
 	} else {
-		if d, n := dst.Dims(); d != c.yd || n != c.yd {
+		if d, n := dst.Dims(); d != c.yd || n != min(c.xd, c.yd) {
 			panic(mat.ErrShape)
 		}
 	}
